@@ -4,6 +4,7 @@ import (
 	"bufio"
 	"fmt"
 	"io"
+	"os"
 	"os/exec"
 	"strings"
 	"time"
@@ -14,6 +15,7 @@ type Solver struct {
 	name    string
 	cmd     *exec.Cmd
 	in      io.WriteCloser
+	w       *bufio.Writer
 	out     *bufio.Reader
 	queries int
 	sat     int
@@ -45,7 +47,7 @@ func NewSolver(name string) *Solver {
 	if err := cmd.Start(); err != nil {
 		panic(fmt.Sprintf("cannot start solver %s: %v", bin, err))
 	}
-	s := &Solver{name: name, cmd: cmd, in: in, out: bufio.NewReaderSize(outp, 1<<16)}
+	s := &Solver{name: name, cmd: cmd, in: in, w: bufio.NewWriterSize(in, 1<<16), out: bufio.NewReaderSize(outp, 1<<16)}
 	s.send("(set-option :produce-models true)")
 	if name == "cvc5" {
 		s.send("(set-logic QF_LIA)")
@@ -57,7 +59,17 @@ func (s *Solver) send(l string) {
 	if s.dead {
 		return
 	}
-	if _, err := io.WriteString(s.in, l+"\n"); err != nil {
+	if dumpFile != nil {
+		dumpFile.WriteString(l + "\n")
+	}
+	if _, err := s.w.WriteString(l); err != nil {
+		s.dead = true
+	}
+	s.w.WriteByte('\n')
+}
+
+func (s *Solver) flush() {
+	if err := s.w.Flush(); err != nil {
 		s.dead = true
 	}
 }
@@ -81,6 +93,7 @@ func (s *Solver) Check() string {
 	}
 	t0 := time.Now()
 	s.send("(check-sat)")
+	s.flush()
 	line, err := s.out.ReadString('\n')
 	s.dur += time.Since(t0)
 	s.queries++
@@ -105,6 +118,51 @@ func (s *Solver) Check() string {
 	return r
 }
 
+// CheckBoth asks "context + t" and "context + not t" in one round trip.
+func (s *Solver) CheckBoth(t, nt *Term) (string, string) {
+	if s.dead {
+		s.unknown += 2
+		return "unknown", "unknown"
+	}
+	t0 := time.Now()
+	s.send("(push 1)")
+	s.send("(assert " + t.s + ")")
+	s.send("(check-sat)")
+	s.send("(pop 1)")
+	s.send("(push 1)")
+	s.send("(assert " + nt.s + ")")
+	s.send("(check-sat)")
+	s.send("(pop 1)")
+	s.flush()
+	res := [2]string{}
+	for i := 0; i < 2; i++ {
+		line, err := s.out.ReadString('\n')
+		s.queries++
+		if err != nil {
+			s.dead = true
+			s.unknown++
+			res[i] = "unknown"
+			continue
+		}
+		r := strings.TrimSpace(line)
+		switch r {
+		case "sat":
+			s.sat++
+		case "unsat":
+			s.unsat++
+		default:
+			s.unknown++
+			if strings.HasPrefix(r, "(error") {
+				s.errors++
+			}
+			r = "unknown"
+		}
+		res[i] = r
+	}
+	s.dur += time.Since(t0)
+	return res[0], res[1]
+}
+
 // CheckWith checks satisfiability of the current context plus t.
 func (s *Solver) CheckWith(t *Term) string {
 	s.Push()
@@ -125,6 +183,7 @@ func (s *Solver) GetValues(names []string) map[string]string {
 		}
 		part := names[start:end]
 		s.send("(get-value (" + strings.Join(part, " ") + "))")
+		s.flush()
 		depth := 0
 		var sb strings.Builder
 		for {
@@ -171,6 +230,7 @@ func (s *Solver) GetValues(names []string) map[string]string {
 
 func (s *Solver) Close() {
 	s.send("(exit)")
+	s.flush()
 	s.in.Close()
 	done := make(chan struct{})
 	go func() { s.cmd.Wait(); close(done) }()
@@ -223,3 +283,11 @@ func parseSMTInt(v string) (int64, bool) {
 	}
 	return n, true
 }
+
+var dumpFile = func() *os.File {
+	if p := os.Getenv("VP_DUMP"); p != "" {
+		f, _ := os.Create(p)
+		return f
+	}
+	return nil
+}()
